@@ -6,6 +6,9 @@ from vf.gen import R
 COMMENT_POOL = [
     "! plain comment", "!", "! it's a \"quote\"", "! a & b", "! x = 1; y = 2", "!! double", "! 'unbalanced",
     "! trailing &", "!comment without blank", "! end if", "! call foo(1, 2)", "!$ x = hidden", "! (paren",
+    # near misses of the directive sentinels: the sentinel is not at the start of the comment
+    "!!dir$ ivdep", "!!gcc$ unroll 4", "!cdir$ nodep", "! cost in misc$units", "! see !$omp below", "!!$omp parallel",
+    "! c$omp x", "!*$x", "! !dir$ simd",
 ]
 DIRECTIVE_POOL = ["!$omp parallel do", "!$OMP END PARALLEL", "!dir$ ivdep", "!$acc loop", "!gcc$ unroll 4",
                   "!$omp barrier"]
@@ -241,7 +244,10 @@ def free_layout(flat, rnd, opts):
             cur = " " * ind
             group_first = len(lines) + 1
         else:
-            cur += r.pick(["; ", ";", " ; ", ";  "])
+            sep = r.pick(["; ", ";", " ; ", ";  ", "; ", ";", ";; ", "; ; ", " ;;"])
+            if ";" in sep.replace(";", "", 1):
+                lay.features.add("semi_empty_statement")     # consecutive ';' are one separator (3.3.1.3)
+            cur += sep
             lay.features.add("semi")
             if st.label or st.cname:
                 lay.features.add("semi_label_or_name")
@@ -340,6 +346,10 @@ def free_layout(flat, rnd, opts):
         lay.own[st.uid] = (own_first, len(lines) + 1)
         # trailing comment after the statement (ends the physical line: no ';' join afterwards)
         can_join = True
+        if opts.semis and r.chance(opts.semis // 3) and not (st.block is not None and st.block.unit
+                                                             and st.role in ("open", "close")):
+            cur += r.pick([";", " ;", ";;"])            # a ';' may also end the line
+            lay.features.add("semi_at_end_of_line")
         if opts.trailing and trailing_possible and r.chance(opts.trailing):
             c = comment_text()
             cur += r.pick([" ", "  ", ""]) + c
